@@ -316,7 +316,9 @@ pub fn check_c04(t: &Transcript) -> Option<Finding> {
                 // the name the strict parser decodes must be (a prefix of) the configured one
                 let cfgname: Vec<u16> = t.cfg.client.name.encode_utf16().collect();
                 let got: Vec<u16> = b.core.client_name.encode_utf16().collect();
-                if got.len() > 15 || cfgname.len() < got.len() || cfgname[..got.len()] != got[..] || (cfgname.len() <= 15 && got.len() != cfgname.len()) {
+                // (a configured name containing U+0000 cannot be told from its prefix in a NUL-terminated field: only the
+                // sizes and counts are judged then)
+                if !t.cfg.client.name.contains('\0') && (got.len() > 15 || cfgname.len() < got.len() || cfgname[..got.len()] != got[..] || (cfgname.len() <= 15 && got.len() != cfgname.len())) {
                     return Err(format!("CS_CORE clientName {:?} is not the configured name {:?} truncated to 15 UTF-16 units", b.core.client_name, t.cfg.client.name));
                 }
                 if b.security.is_none() || b.net.is_none() {
